@@ -15,7 +15,16 @@ import (
 	"github.com/edutko/decipher/internal/asn1struct"
 )
 
-var derByteOps = map[string]bool{"pkcs1pub": true, "pkcs1priv": true, "dsapriv": true, "dsaparams": true, "spki": true, "pkcs8": true}
+var derByteOps = map[string]bool{"pkcs1pub": true, "pkcs1priv": true, "dsapriv": true, "dsaparams": true, "spki": true, "pkcs8": true, "ecparams": true, "sec1": true}
+
+// inferredOf picks the recorded answer of elliptic.CurveNameFromParameters out of the oracle of the
+// recorded-answer op: (2 ft prime char2 inferred) for EC parameters, (named ft prime char2 inferred) for SEC1
+func inferredOf(ec Sx) Sx {
+	if o, ok := ec.(SL); ok && len(o) == 5 {
+		return o[4]
+	}
+	return SL{}
+}
 
 func (g *c02) derFromBytes(op, tag string, der []byte, oracle, spec, impl Sx) {
 	if !derByteOps[op] {
@@ -28,7 +37,9 @@ func (g *c02) derFromBytes(op, tag string, der []byte, oracle, spec, impl Sx) {
 		if o, ok := oracle.(SL); ok && len(o) == 4 {
 			ec = o[3]
 		}
-		in = SL{SB(der), ec, spec}
+		in = SL{SB(der), inferredOf(ec), spec}
+	case "ecparams", "sec1":
+		in = SL{SB(der), inferredOf(oracle), spec}
 	default:
 		in = SL{SB(der), spec}
 	}
@@ -230,6 +241,18 @@ func (g *c02) derEncoders() {
 		emit("spkidsa", mags(n, q, d, p), asn1struct.PKIXPublicKey{Algorithm: algid(oidDSA, must(asn1struct.DSAParameters{P: n, Q: q, G: d})), PublicKey: bitsOf(must(p))})
 		emit("pkcs8rsa", mags(n, eb, d, p, q, dp, dq, qi), asn1struct.PKCS8PrivateKey{Algorithm: algid(oidRSA, []byte{5, 0}), PrivateKey: must(priv)})
 		emit("pkcs8dsa", mags(n, q, d, dp), asn1struct.PKCS8PrivateKey{Algorithm: algid(oidDSA, must(asn1struct.DSAParameters{P: n, Q: q, G: d})), PrivateKey: must(dp)})
+		{
+			// EC over a named curve: SEC1 with both optional fields, SubjectPublicKeyInfo, PKCS#8, the bare OID
+			curve := [][]int{{1, 3, 132, 0, 33}, {1, 2, 840, 10045, 3, 1, 7}, {1, 3, 132, 0, 34}, {1, 3, 132, 0, 35}}[i%4]
+			d, pt := r.Bytes([]int{0, 1, 28, 32, 48, 66, 127, 128}[i%8]), append([]byte{4}, r.Bytes([]int{56, 64, 96, 132, 0, 200}[i%6])...)
+			emitC := func(kind string, args Sx, v any) {
+				g.c.Emit("derenc:"+kind, SL{S(kind), args, arcsSx(curve)}, guard(func() Sx { return ObsOk(SB(must(v))) }))
+			}
+			emitC("ecnamed", SL{}, asn1.ObjectIdentifier(curve))
+			emitC("sec1named", SL{SB(d), SB(pt)}, asn1struct.ECPrivateKey{Version: 1, PrivateKey: d, NamedCurveOID: asn1.ObjectIdentifier(curve), PublicKey: bitsOf(pt)})
+			emitC("spkiec", SL{SB(pt)}, asn1struct.PKIXPublicKey{Algorithm: algid(oidECPub, must(asn1.ObjectIdentifier(curve))), PublicKey: bitsOf(pt)})
+			emitC("pkcs8ec", SL{SB(d)}, asn1struct.PKCS8PrivateKey{Algorithm: algid(oidECPub, must(asn1.ObjectIdentifier(curve))), PrivateKey: d})
+		}
 		raw := r.Bytes([]int{0, 1, 32, 57, 127, 128, 300}[i%7])
 		emit("spkied25519", SL{SB(raw)}, asn1struct.PKIXPublicKey{Algorithm: algid(oidEd25519, nil), PublicKey: bitsOf(raw)})
 		emit("pkcs8ed25519", SL{SB(raw)}, asn1struct.PKCS8PrivateKey{Algorithm: algid(oidEd25519, nil), PrivateKey: must(raw)})
@@ -321,7 +344,82 @@ func (g *c02) derDecoderStream() {
 		g.der("pkcs8", fmt.Sprintf("dec-params-%d", i), derSeq(derSmall(0), derSeq(derOID(oidRSA...), p), derOctets(priv)), noSpec)
 		g.der("pkcs8", fmt.Sprintf("dec-params-dsa-%d", i), derSeq(derSmall(0), derSeq(derOID(oidDSA...), p), derOctets(derInt(d.X))), noSpec)
 	}
+	g.ecDecoderStream(r)
 	// PrivateKeyInfo with attributes / a version-1 OneAsymmetricKey public key after the key
 	g.der("pkcs8", "dec-attrs", derSeq(derSmall(0), derSeq(derOID(oidRSA...), derNull()), derOctets(priv), derExplicit(0, derSeq())), noSpec)
 	g.der("pkcs8", "dec-v1-pub", derSeq(derSmall(1), derSeq(derOID(oidEd25519...)), derOctets(edPriv), derTLV(0x81, append([]byte{0}, edPub...))), noSpec)
+}
+
+// EC parameters (named / explicit) and SEC1 ECPrivateKey: every field of ECParameters, its optional tail, and the
+// explicitly tagged optional fields of ECPrivateKey with the quirks of encoding/asn1's explicit-tag handling
+func (g *c02) ecDecoderStream(r *Rng) {
+	k := genEC(r, 256)
+	p := k.curve.Params()
+	sz := (p.BitSize + 7) / 8
+	a := new(big.Int).Sub(p.P, big.NewInt(3))
+	base := append([]byte{4}, append(p.Gx.FillBytes(make([]byte, sz)), p.Gy.FillBytes(make([]byte, sz))...)...)
+	oidEl := func(arcs []int) derEl { o := derOID(arcs...); return derEl{0x06, o[2:]} }
+	fieldEls := []derEl{oidEl(oidPrime), intEl(p.P)}
+	curveEls := []derEl{{0x04, a.FillBytes(make([]byte, sz))}, {0x04, p.B.FillBytes(make([]byte, sz))}}
+	seed := derEl{0x03, append([]byte{0}, r.Bytes(20)...)}
+	els := []derEl{intEl(big.NewInt(1)), {0x30, joinEls(fieldEls)}, {0x30, joinEls(curveEls)}, {0x04, base}, intEl(p.N), intEl(big.NewInt(1))}
+	explicit := derTLV(0x30, joinEls(els))
+	named := derOID(k.oid...)
+
+	g.seqStream("ecparams", "ecp", els, []int{0, 5}, ident)
+	g.seqStream("ecparams", "ecp-fieldid", fieldEls, nil, func(b []byte) []byte { return derSeq(els[0].enc(), b, joinEls(els[2:])) })
+	g.seqStream("ecparams", "ecp-curve", append(append([]derEl{}, curveEls...), seed), nil, func(b []byte) []byte { return derSeq(joinEls(els[:2]), b, joinEls(els[3:])) })
+	for _, v := range elementVariants(derEl{0x06, named[2:]}) {
+		g.der("ecparams", "dec-named-"+v.name, v.b, noSpec)
+		g.der("spki", "dec-ec-named-"+v.name, derSeq(derSeq(derOID(oidECPub...), v.b), derBits(k.point)), noSpec)
+	}
+	g.der("ecparams", "dec-named-after", derCat(named, derNull()), noSpec)
+	// the optional tail: cofactor and hash
+	hash := derOID(2, 16, 840, 1, 101, 3, 4, 2, 1)
+	for i, t := range [][]byte{nil, derSmall(1), derCat(derSmall(1), hash), hash, derCat(hash, derSmall(1)), derInt(new(big.Int).Lsh(big.NewInt(1), 63)), {0x02, 0x02, 0x00, 0x01},
+		derTLV(0x06, nil), derTLV(0x06, []byte{0x80}), derCat(derSmall(1), derTLV(0x06, []byte{0x2a, 0x86})), derNull(), {0x02, 0x7f}, {0x06, 0x7f}, {0x04, 0x7f}, derCat(derSmall(1), derSmall(2))} {
+		g.der("ecparams", fmt.Sprintf("dec-ecp-tail-%d", i), derTLV(0x30, derCat(joinEls(els[:5]), t)), noSpec)
+	}
+	// field parameters of other shapes (a characteristic-two field, a non-integer)
+	for i, fp := range [][]byte{derSeq(derSmall(163)), derSeq(derSmall(163), derOID(1, 2, 840, 10045, 1, 2, 3, 2), derSmall(3)), derSeq(), derNull(), derOctets([]byte{1}), {0x02, 0x02, 0x00, 0x01}, derSeq([]byte{0x02, 0x02, 0x00, 0x01})} {
+		for j, ft := range [][]int{oidPrime, {1, 2, 840, 10045, 1, 2}, {1, 2, 3}} {
+			g.der("ecparams", fmt.Sprintf("dec-ecp-field-%d-%d", i, j), derSeq(els[0].enc(), derSeq(derOID(ft...), fp), joinEls(els[2:])), noSpec)
+		}
+	}
+
+	// SEC1
+	bits := derBits(k.point)
+	g.seqStream("sec1", "sec1-named", []derEl{intEl(big.NewInt(1)), {0x04, k.d}, {0xa0, named}, {0xa1, bits}}, []int{0}, ident)
+	g.seqStream("sec1", "sec1-explicit", []derEl{intEl(big.NewInt(1)), {0x04, k.d}, {0xa0, explicit}, {0xa1, bits}}, []int{0}, ident)
+	g.seqStream("sec1", "sec1-in-named", []derEl{{0x06, named[2:]}}, nil, func(b []byte) []byte { return derSeq(derSmall(1), derOctets(k.d), derExplicit(0, b), derExplicit(1, bits)) })
+	g.seqStream("sec1", "sec1-in-pub", []derEl{{0x03, bits[2:]}}, nil, func(b []byte) []byte { return derSeq(derSmall(1), derOctets(k.d), derExplicit(0, named), derExplicit(1, b)) })
+	g.seqStream("sec1", "sec1-in-explicit", els, nil, func(b []byte) []byte { return derSeq(derSmall(1), derOctets(k.d), derExplicit(0, b), derExplicit(1, bits)) })
+	head := derCat(derSmall(1), derOctets(k.d))
+	tails := []namedBytes{
+		{"none", nil}, {"null-last", derNull()}, {"a0-empty-last", []byte{0xa0, 0}}, {"a0-empty-then-pub", derCat([]byte{0xa0, 0}, derExplicit(1, bits))},
+		{"a1-empty-last", []byte{0xa1, 0}}, {"named-then-a1-empty", derCat(derExplicit(0, named), []byte{0xa1, 0})}, {"named-then-null", derCat(derExplicit(0, named), derNull())},
+		{"prim-ctx0", derTLV(0x80, named)}, {"prim-ctx0-empty-then-pub", derCat([]byte{0x80, 0}, derExplicit(1, bits))},
+		{"a0-short", derCat([]byte{0xa0, 2}, named)}, {"a0-long", derCat([]byte{0xa0, byte(len(named) + 5)}, named, derExplicit(1, bits))}, {"a0-len1", derCat([]byte{0xa0, 1}, named, derExplicit(1, bits))},
+		{"a0-huge", derCat([]byte{0xa0, 0x84, 0x7f, 0xff, 0xff, 0xff}, named)}, {"a0-named-extra", derExplicit(0, derCat(named, derNull()))},
+		{"named-and-explicit", derCat(derExplicit(0, named), derExplicit(0, explicit))}, {"explicit-and-named", derCat(derExplicit(0, explicit), derExplicit(0, named))},
+		{"explicit-twice", derCat(derExplicit(0, explicit), derExplicit(0, explicit))}, {"named-twice", derCat(derExplicit(0, named), derExplicit(0, named))},
+		{"pub-then-named", derCat(derExplicit(1, bits), derExplicit(0, named))}, {"pub-only", derExplicit(1, bits)}, {"pub-twice", derCat(derExplicit(1, bits), derExplicit(1, bits))},
+		{"ctx2", derExplicit(2, named)}, {"app0", derTLV(0x60, named)}, {"private0", derTLV(0xe0, named)}, {"univ-oid", named}, {"univ-seq", explicit}, {"univ-bits", bits},
+		{"a0-int", derExplicit(0, derSmall(1))}, {"a0-bad-oid", derExplicit(0, derTLV(0x06, []byte{0x80}))}, {"a0-empty-oid", derExplicit(0, derTLV(0x06, nil))},
+		{"a0-oid-trunc", derExplicit(0, []byte{0x06, 0x7f})}, {"a0-inner-trunc", derExplicit(0, []byte{0x06})}, {"a0-inner-bad-len", derExplicit(0, []byte{0x06, 0x81, 0x01, 0x2a})},
+		{"a0-empty-seq", derExplicit(0, derSeq())}, {"a0-seq-garbage", derExplicit(0, derSeq(derNull()))}, {"a0-set", derExplicit(0, derTLV(0x31, joinEls(els)))},
+		{"a1-octets", derExplicit(1, derOctets(k.point))}, {"a1-bad-pad", derExplicit(1, derTLV(0x03, append([]byte{8}, k.point...)))}, {"a1-empty-bits", derExplicit(1, derTLV(0x03, nil))},
+		{"a1-pad-nonzero", derExplicit(1, derTLV(0x03, []byte{3, 0xff}))}, {"a1-pad-ok", derExplicit(1, derTLV(0x03, []byte{3, 0xf8}))}, {"a1-constructed-bits", derExplicit(1, derTLV(0x23, bits[2:]))},
+		{"named-pub-extra", derCat(derExplicit(0, named), derExplicit(1, bits), derNull())}, {"named-pub-garbage", derCat(derExplicit(0, named), derExplicit(1, bits), []byte{0x04, 0x7f})},
+		{"named-garbage", derCat(derExplicit(0, named), []byte{0x04, 0x7f})}, {"garbage", []byte{0x04, 0x7f}}, {"bad-header", []byte{0xbf}}, {"high-tag-0", []byte{0xbf, 0x00, 0x00}},
+		{"a0-high-form", derCat([]byte{0xbf, 0x1f, byte(len(named))}, named)},
+	}
+	for _, t := range tails {
+		g.der("sec1", "dec-sec1-tail-"+t.name, derTLV(0x30, derCat(head, t.b)), noSpec)
+	}
+	// inside PKCS#8 / SubjectPublicKeyInfo: the parameters of id-ecPublicKey
+	g.seqStream("spki", "spki-ecparams", els, nil, func(b []byte) []byte { return derSeq(derSeq(derOID(oidECPub...), b), derBits(k.point)) })
+	g.seqStream("pkcs8", "pkcs8-ecparams", els[:5], nil, func(b []byte) []byte {
+		return derSeq(derSmall(0), derSeq(derOID(oidECPub...), b), derOctets(derSeq(derSmall(1), derOctets(k.d))))
+	})
 }
